@@ -132,7 +132,7 @@ def feedLine (dm : Option Mol) (split : Bool) (input : Input) (force : Bool) (ps
     | .error _ => none)
   let dpart : String :=
     match (fedD.filterMap (fun r => r.bind (fun r => stopErr r.2))).head? with
-    | some cls => "DERR:" ++ cls
+    | some cls => " ".intercalate ((fedD.filter Option.isNone).map (fun _ => "Dexc:ValueError") ++ ["DERR:" ++ cls])
     | none => " ".intercalate (fedD.map (fun r => match r with
         | some r => contentRec r.1 r.1.md5sum.2
         | none => "Dexc:ValueError"))
